@@ -15,6 +15,7 @@ import (
 	"github.com/miekg/dns"
 	"verifsim/core"
 	"verifsim/kernel"
+	"verifsim/oracle"
 	"verifsim/props/common"
 	"verifsim/simnet"
 )
@@ -265,6 +266,7 @@ type call struct {
 	notifySeq uint64
 	ctx       *common.Ctx
 	inflight  int // shutdown: handlers in flight at return
+	openConns int // shutdown: accepted connections the server had not closed yet at return
 }
 
 type run struct {
@@ -448,6 +450,11 @@ func (x *run) shutdown(c *call, kind string, ctxMs int) {
 	k.Lock()
 	c.ret, c.retSeq, c.retT, c.err = true, k.Seq, time.Now(), common.ErrStr(err)
 	c.inflight = x.entered - x.exited
+	for _, sc := range x.n.Conns {
+		if sc.Role == "srv" && sc.Accepted && !sc.Frozen && !sc.IsClosed() {
+			c.openConns++
+		}
+	}
 	k.EffectLocked("ret " + c.name + " " + c.err)
 	k.Unlock()
 }
@@ -742,6 +749,7 @@ func runIn(sc *Scenario, res *core.Result, verbose bool) {
 	n := simnet.New(k)
 	n.Stream = simnet.StreamLink{MinDelay: time.Duration(sc.DelayMs) * time.Millisecond, Jitter: time.Duration(sc.JitterMs) * time.Millisecond, SegMode: sc.SegMode, ShortRead: sc.ShortRead}
 	n.Dgram = simnet.DgramLink{MinDelay: time.Duration(sc.DelayMs) * time.Millisecond, Jitter: time.Duration(sc.JitterMs) * time.Millisecond}
+	n.CloseYields = core.Mode == "instr"
 	x := &run{sc: sc, k: k, n: n, res: res, ops: map[string]*opState{}, cliClosed: map[int]uint64{}, cliFin: make([]bool, len(sc.Clients))}
 	srv := &dns.Server{Handler: x, NotifyStartedFunc: x.notifyStarted, MaxTCPQueries: sc.MaxTCPQ, UDPSize: 4096}
 	x.srv = srv
@@ -967,6 +975,26 @@ func (x *run) judge(outcome string) {
 			res.Fail("S2", "reply-not-delivered", "handler for %s wrote its reply without error but the client got %q", name, st.cliOutcome)
 		}
 	}
+	// S10: a request the server's read returned is served: nothing that was read is dropped on the floor
+	if x.pc != nil {
+		read := map[string]int{}
+		for _, d := range x.pc.Received {
+			if len(d.Seen) > 12 {
+				if q, _, _, err := oracle.Name(d.Seen, 12); err == nil {
+					read[q]++
+				}
+			}
+		}
+		for _, st := range x.opList {
+			name := x.tok(st.ci, st.oi)
+			if read[name] > 0 {
+				res.Bump("oracle.S10_read_request_served")
+				if st.entered != read[name] {
+					res.Fail("S10", "read-request-not-served", "the server read the request for %s %d time(s) from its socket but the handler ran %d time(s)", name, read[name], st.entered)
+				}
+			}
+		}
+	}
 	// S6 bounded liveness
 	if sc.Long {
 		base := acc.callT
@@ -997,6 +1025,14 @@ func (x *run) judge(outcome string) {
 		}
 	}
 	// S7 leaks (only meaningful after a complete shutdown)
+	if !ctxExpired && core.Mode == "instr" {
+		// in the instrumented build Close is a scheduling point, so "closed by the
+		// time Shutdown returns" is decided by the schedule, not by luck
+		res.Bump("oracle.S7_closed_at_return")
+		if acc.openConns > 0 {
+			res.Fail("S7", "conn-open-at-shutdown-return", "%s returned nil while %d accepted connection(s) had not been closed yet", acc.name, acc.openConns)
+		}
+	}
 	if !ctxExpired {
 		res.Bump("oracle.S7_leaks")
 		if x.l != nil && !x.l.IsClosed() {
